@@ -25,6 +25,16 @@ CLAIMED["C15"] = dict(
          "wannierise window bookkeeping lines are not under contract.",
     note=TB + "; Kramers precondition: even number of bands; np.where/zip external contracts")
 
+CLAIMED["C17"] = dict(
+    text="EnergyResult.dataSmooth: unbounded proof (any number of energy axes) by loop invariant over abstract smoothers that the result "
+         "is S_0(S_1(...S_{N-1}(data))) with smoother i applied along axis i. AbstractSmoother.__call__: unbounded proof of the window "
+         "algebra for every grid size NE, kernel half-width NE1 and position i (data and weight windows in bounds, equal length, aligned, "
+         "equal to the kernel clipped to the grid); per-shape proofs with the REAL numpy on symbolic scalars (ranks 1-4, every tested axis, "
+         "kernel narrower and wider than the grid) that each output element is the normalised weighted average along the requested axis "
+         "only -- hence linear, constant-preserving, other axes untouched. VoidSmoother identity and get_smoother dispatch. "
+         "Bounded stand-in: real EnergyResult objects with 1-3 energy axes and real smoothers.",
+    note=TB + "; assumed: the kernel weights are positive (Gaussian, -df/dE) so window sums are non-zero; smoothers along distinct axes commute (linear maps along different axes); np.tensordot contract (equal contracted extents) in the unbounded unit")
+
 NOT_APPLICABLE = {
     "C20": "real-space symmetrisation is a data-dependent floating-point orbit search over irrep objects; its postcondition is only statable through an eigen-solver, no discrete/algebraic kernel is left once externals are abstracted (DESIGN section 7)",
     "C21": "rotation matrices are produced inside sympy (polynomial expansion + evalf); orthogonality/composition live in that CAS computation, outside any contract this engine can generate VCs for (DESIGN section 7)",
